@@ -325,6 +325,16 @@ func (r *Run) Finish() int {
 		}
 		sort.Strings(rs)
 		fmt.Printf("INCONCLUSIVE property=%s cases=%d reason=%s\n", r.Prop, len(r.incon), strings.Join(rs, ";"))
+		if os.Getenv("VERIF_DEBUG") != "" {
+			var ids []string
+			for id, why := range r.incon {
+				ids = append(ids, id+" <= "+why)
+			}
+			sort.Strings(ids)
+			for _, id := range ids {
+				fmt.Println("  inconclusive:", id)
+			}
+		}
 	}
 	held := 0
 	failing := map[string]bool{}
